@@ -9,7 +9,149 @@ class CannotEval(Exception):
     pass
 
 
-def ev(sv, env):
+class Res:
+    """residual (symbolic) value: an uninterpreted operation applied to values; + and * are commutative"""
+    __slots__ = ("op", "args")
+
+    def __init__(self, op, *args):
+        if op in ("Add", "Mult"):
+            args = tuple(sorted(args, key=repr))
+        self.op, self.args = op, tuple(args)
+
+    def __eq__(self, o):
+        return isinstance(o, Res) and (self.op, self.args) == (o.op, o.args)
+
+    def __hash__(self):
+        return hash((self.op, self.args))
+
+    def __repr__(self):
+        return f"{self.op}({', '.join(map(repr, self.args))})" if self.args else self.op
+
+
+def _has_res(*vals):
+    return any(isinstance(v, Res) or (isinstance(v, tuple) and _has_res(*v)) for v in vals)
+
+
+_STR_METHODS = {".lower": str.lower, ".upper": str.upper, ".casefold": str.casefold, ".strip": str.strip}
+
+
+def ev(sv, env, leaf=None):
+    """`leaf(sv)` (optional) gives the value of opaque nodes (calls, fields, properties, parameters); it returns NotImplemented to decline.
+    With residual values (Res) in the environment, operations on them stay symbolic."""
+    if sv in env:
+        return env[sv]
+    t = sv[0]
+    if t == "c":
+        return sv[1]
+    if leaf is not None and t in ("call", "f0", "prop", "p", "g", "iter", "calldyn", "new"):
+        r = leaf(sv)
+        if r is not NotImplemented:
+            return r
+    if leaf is not None:
+        return _ev_sym(sv, env, leaf)
+    return _ev(sv, env)
+
+
+def _ev_sym(sv, env, leaf):
+    t = sv[0]
+    E = lambda x: ev(x, env, leaf)
+    if t == "op":
+        a, b = E(sv[2]), E(sv[3])
+        if _has_res(a, b):
+            return Res(sv[1], a, b)
+        return _ev(("op", sv[1], ("c", a), ("c", b)), env)
+    if t == "cmp":
+        a, b = E(sv[2]), E(sv[3])
+        if sv[1] in ("In", "NotIn"):
+            try:
+                r = a in b
+            except TypeError as e:
+                raise CannotEval(str(e))
+            if _has_res(a) or _has_res(b):
+                raise CannotEval("membership of a symbolic value")
+            return r if sv[1] == "In" else not r
+        if sv[1] in ("Is", "IsNot") and (a is None or b is None):
+            return (a is b) if sv[1] == "Is" else (a is not b)
+        if _has_res(a, b):
+            if sv[1] in ("Eq", "NotEq") and a == b:
+                return sv[1] == "Eq"
+            raise CannotEval(f"comparison of symbolic values {a!r} {sv[1]} {b!r}")
+        return _ev(("cmp", sv[1], ("c", a), ("c", b)), env)
+    if t == "not":
+        return not _truth(E(sv[1]))
+    if t == "bool":
+        r = sv[1] == "and"
+        for x in sv[2]:
+            r = E(x)
+            if bool(_truth(r)) != (sv[1] == "and"):
+                return r
+        return r
+    if t == "ite":
+        return E(sv[2]) if _truth(E(sv[1])) else E(sv[3])
+    if t == "sub":
+        a, b = E(sv[1]), E(sv[2])
+        if _has_res(a) and not isinstance(a, (tuple, list, dict)):
+            return Res("sub", a, b)
+        try:
+            return a[b]
+        except (IndexError, KeyError, TypeError) as e:
+            raise CannotEval(f"subscript: {e}")
+    if t == "slice":
+        a = E(sv[1])
+        lo = E(sv[2]) if sv[2] is not None else None
+        hi = E(sv[3]) if sv[3] is not None else None
+        if isinstance(a, Res):
+            return Res("slice", a, lo, hi)
+        try:
+            return a[lo:hi]
+        except TypeError as e:
+            raise CannotEval(str(e))
+    if t == "len":
+        a = E(sv[1])
+        if isinstance(a, Res):
+            return Res("len", a)
+        try:
+            return len(a)
+        except TypeError as e:
+            raise CannotEval(str(e))
+    if t == "tuple":
+        return tuple(E(x) for x in sv[1])
+    if t == "call":
+        name = sv[1] if isinstance(sv[1], str) else str(sv[1])
+        args = [E(a) for a in sv[2] if not (isinstance(a, tuple) and a and a[0] == "kw")]
+        kws = {a[1]: E(a[2]) for a in sv[2] if isinstance(a, tuple) and a and a[0] == "kw"}
+        if name in _STR_METHODS and len(args) == 1:
+            if isinstance(args[0], str):
+                return _STR_METHODS[name](args[0])
+            if args[0] is None:
+                raise CannotEval(f"{name} on None")
+        if name.endswith(".get") and len(args) >= 2 and isinstance(args[0], dict) and not _has_res(*args[1:2]):
+            return args[0].get(args[1], args[2] if len(args) > 2 else None)
+        if name == "cast" and len(args) == 2:
+            return args[1]
+        if name in ("len",) and not _has_res(*args):
+            return len(args[0])
+        if name in ("int", "float", "str", "bool", "round", "abs", "min", "max") and not _has_res(*args) and not kws:
+            try:
+                return {"int": int, "float": float, "str": str, "bool": bool, "round": round, "abs": abs, "min": min, "max": max}[name](*args)
+            except (TypeError, ValueError) as e:
+                raise CannotEval(str(e))
+        return Res(name, *args, *[Res("kw:" + k, v) for k, v in sorted(kws.items())])
+    if t == "fstr":
+        parts = []
+        for part in sv[1]:
+            parts.append(part[1] if part[0] == "lit" else Res("fmt", E(part[1]), part[3]))
+        return Res("fstr", *parts)
+    raise CannotEval(f"leaf/kind {sv[:2]}")
+
+
+def _truth(v):
+    if isinstance(v, Res):
+        raise CannotEval(f"truth of symbolic value {v!r}")
+    return bool(v)
+
+
+def _ev(sv, env):
     if sv in env:
         return env[sv]
     t = sv[0]
@@ -88,9 +230,14 @@ def ev(sv, env):
     raise CannotEval(f"leaf/kind {sv[:2]}")
 
 
-def path_holds(path, env):
+def path_holds(path, env, leaf=None):
     """True/False: all guards of the path evaluate as recorded"""
     for g, pol, _ in path.guards:
-        if bool(ev(g, env)) != pol:
+        if g[0] == "exc":
+            return False  # exceptional continuations are judged separately
+        v = ev(g, env, leaf)
+        if leaf is not None:
+            v = _truth(v)
+        if bool(v) != pol:
             return False
     return True
